@@ -859,3 +859,22 @@ func init() {
 	}
 	externals["(*runtime.TypeAssertionError).Error"] = func(fr *frame, a []value) value { return "interface conversion error" }
 }
+
+func init() {
+	// rt.Guard(m, mu, id): map m must only be read with *mu held and written with it write-held
+	rtExternals["Guard"] = func(fr *frame, a []value) value {
+		m, ok := a[0].(iface).v.(*omap)
+		if !ok {
+			panic(engineError{"rt.Guard: not a map"})
+		}
+		mu, ok := a[1].(iface).v.(*value)
+		if !ok {
+			panic(engineError{"rt.Guard: second argument must be a pointer to a mutex"})
+		}
+		if fr.i.guards == nil {
+			fr.i.guards = map[*omap]guard{}
+		}
+		fr.i.guards[m] = guard{mu: mu, id: a[2].(string)}
+		return nil
+	}
+}
